@@ -13,7 +13,7 @@ from pathlib import Path
 
 VERIF = Path(__file__).resolve().parent.parent
 EVIDENCE_DIR = VERIF / "evidence"
-OUT_DIR = VERIF / "out"
+OUT_DIR = Path(os.environ.get("VERIF_OUT") or (VERIF / "out"))
 KNOWN_FILE = VERIF / "known_findings.json"
 
 
@@ -171,7 +171,10 @@ class Ctx:
             d = OUT_DIR / self.prop_id
             d.mkdir(parents=True, exist_ok=True)
             for old in d.glob("*.json"):
-                old.unlink()
+                try:
+                    old.unlink()
+                except FileNotFoundError:
+                    pass
             for n, f in enumerate(unlisted):
                 p = d / f"{n}.json"
                 rec = f.as_dict()
